@@ -4,6 +4,8 @@
 //   mode 3: status protocol: info() == Success  ==>  the last convergence test of THIS compute() found every residual column norm below tol * n
 //   mode 5: sanity run (doc example, 100 x 100 without / with B and a diagonal preconditioner): prints status, eigenvalues against a dense reference, residual norms,
 //           ||X'BX - I|| - used to compare the behaviour of a repaired header with the original (always exit 0)
+//   mode 6: any other failed obligation (shape / index / callee precondition): a family of inputs INSIDE the property's quantifier (k = 1..4, n = 20, 50, with / without B,
+//           diagonal preconditioner, constraints, maxit 0 / 1 / 30, a second compute() on the same object) with Eigen's assertions enabled: an assertion abort = reproduced
 //   mode 4: (outside the property's quantifier, for the report) rank-deficient initial block: the initial LDLT fails and `BX = BX * sparse_eVecX` multiplies a 0 x 0 matrix
 // exit code 1 + a line starting with REPRODUCED when the real code exhibits the violated obligation, 0 otherwise.
 #include <cstdio>
@@ -156,6 +158,47 @@ static int mode4()
     return 0;
 }
 
+static int mode6()
+{
+    int runs = 0;
+    for (int n = 20; n <= 50; n += 30)
+        for (int k = 1; k <= 4; k++)
+            for (int cfg = 0; cfg < 8; cfg++)
+                for (int mi = 0; mi < 3; mi++)
+                {
+                    const int maxit = mi == 0 ? 0 : (mi == 1 ? 1 : 30);
+                    SpMat A = make_A(n, 0.1);
+                    Mat b = Mat::Zero(n, n), t = Mat::Zero(n, n), y = Mat::Zero(n, 1);
+                    for (int i = 0; i < n; i++)
+                    {
+                        b(i, i) = 2.0 + 0.01 * i;
+                        if (i + 1 < n) { b(i, i + 1) = 0.2; b(i + 1, i) = 0.2; }
+                        t(i, i) = 1.0 / (i + 1);
+                    }
+                    y(n - 1, 0) = 1.0;
+                    SpMat B = b.sparseView(), T = t.sparseView(), Y = y.sparseView();
+                    Solver solver(A, make_X(n, k));
+                    if (cfg & 1) solver.setB(B);
+                    if (cfg & 2) solver.setPreconditioner(T);
+                    if (cfg & 4) solver.setConstraints(Y);
+                    for (int rep = 0; rep < 2; rep++)
+                    {
+                        try
+                        {
+                            solver.compute(maxit, 1e-8);
+                            (void)solver.eigenvalues(); (void)solver.residuals(); (void)solver.eigenvectors();
+                        }
+                        catch (const std::exception&)
+                        {
+                            // the exception of the inner solver's constructor is the subject of mode 2
+                        }
+                        runs++;
+                    }
+                }
+    std::printf("%d runs inside the quantifier without an Eigen assertion\n", runs);
+    return 0;
+}
+
 static void sanity_case(const char* what, const SpMat& A, const SpMat* B, const SpMat* T, int k, int maxit, double tol)
 {
     const int n = int(A.rows());
@@ -229,6 +272,7 @@ int main(int argc, char** argv)
     else if (mode == 3) hit = mode3();
     else if (mode == 4) hit = mode4();
     else if (mode == 5) return mode5();
+    else if (mode == 6) hit = mode6();
     if (!hit)
         std::printf("not reproduced\n");
     return hit ? 1 : 0;
